@@ -32,14 +32,16 @@ ASSUMPTIONS = [
     "XYZ coordinates are compared at their printed precision (5 decimals)",
 ]
 REQUIRED_MONITORS = ["h5_streams_checked", "h5_rows_compared", "xyz_frames_checked", "thermo_lines_checked",
-                     "checkpoint_events_checked", "absent_streams_checked", "resumed_runs_checked"]
+                     "checkpoint_events_checked", "absent_streams_checked", "resumed_runs_checked",
+                     "static_metadata_checked", "fssh_invariant_rows_checked", "tdm_streams_checked"]
 CASE_TIMEOUT = 900.0
 # budgets are sized for 16 workers; with fewer workers (VERIF_NCPU) the same work needs proportionally longer
 _SCALE = max(1.0, 16.0 / max(1, env.NCPU)) * float(os.environ.get("VERIF_BUDGET_SCALE", "1"))   # >1 on a loaded machine
 BUDGET_S = {"quick": 900 * _SCALE, "thorough": 1700 * _SCALE}
 MIN_NONTRIVIAL = 4
 
-STREAMS = ("data", "coordinates", "velocities", "forces", "xyz", "nonadiabatic", "print", "checkpoint")
+STREAMS = ("data", "coordinates", "velocities", "forces", "xyz", "nonadiabatic", "print", "checkpoint", "tdm")
+EXCITED = ("fssh", "fssh_damped", "cis_bomd", "cis_xl")     # engines that have a transition-density stream
 VEC = ("coordinates", "velocities", "forces")
 TOL = 1e-9
 
@@ -67,7 +69,7 @@ def _val(v, N):
     return N if v == "N" else (N + 3 if v == "N+3" else int(v))
 
 
-def covering_array(g, nfac=8, values=9):
+def covering_array(g, nfac=9, values=9):
     """Greedy pairwise covering array over value *indices*.  Every ordered pair of values of every two
     factors appears together in at least one row."""
     unc = set()
@@ -108,27 +110,29 @@ def covering_array(g, nfac=8, values=9):
 def hostile_tuples(N):
     """name -> dict(stream -> cadence)"""
     def t(**kw):
-        d = dict(data=1, coordinates=1, velocities=1, forces=1, xyz=1, nonadiabatic=1, print=1, checkpoint=0)
+        d = dict(data=1, coordinates=1, velocities=1, forces=1, xyz=1, nonadiabatic=1, print=1, checkpoint=0, tdm=1)
         d.update(kw)
         return d
     nd = [c for c in (2, 3, 4, 5, 7) if N % c]          # non-divisors of N
     nd = (nd + [N - 1, N - 2])[:3]
     out = {
-        "coprime-2-3-5": t(data=7, coordinates=2, velocities=3, forces=5, xyz=3, nonadiabatic=2, print=5, checkpoint=2),
-        "coprime-5-3-2": t(data=3, coordinates=5, velocities=3, forces=2, xyz=7, nonadiabatic=3, print=2, checkpoint=3),
-        "coprime-3-2-7": t(data=2, coordinates=3, velocities=2, forces=7, xyz=5, nonadiabatic=5, print=3, checkpoint=5),
+        "coprime-2-3-5": t(data=7, coordinates=2, velocities=3, forces=5, xyz=3, nonadiabatic=2, print=5, checkpoint=2, tdm=3),
+        "coprime-5-3-2": t(data=3, coordinates=5, velocities=3, forces=2, xyz=7, nonadiabatic=3, print=2, checkpoint=3, tdm=2),
+        "coprime-3-2-7": t(data=2, coordinates=3, velocities=2, forces=7, xyz=5, nonadiabatic=5, print=3, checkpoint=5, tdm=3),
         "non-divisors": t(data=nd[0], coordinates=nd[1], velocities=nd[2], forces=nd[0], xyz=nd[1], nonadiabatic=nd[2],
-                          print=nd[0], checkpoint=nd[1]),
+                          print=nd[0], checkpoint=nd[1], tdm=nd[2]),
         "larger-than-run": t(data=N + 3, coordinates=N + 1, velocities=2 * N, forces=N + 3, xyz=N + 1,
-                             nonadiabatic=N + 2, print=N + 3, checkpoint=N + 1),
-        "equal-to-run": t(data=N, coordinates=N, velocities=N, forces=N, xyz=N, nonadiabatic=N, print=N, checkpoint=N),
+                             nonadiabatic=N + 2, print=N + 3, checkpoint=N + 1, tdm=N + 2),
+        "equal-to-run": t(data=N, coordinates=N, velocities=N, forces=N, xyz=N, nonadiabatic=N, print=N, checkpoint=N, tdm=N),
         "one-larger-two-small": t(coordinates=N + 3, velocities=1, forces=2, data=N - 1, xyz=N - 1, checkpoint=N - 1),
         "all-zero": {s: 0 for s in STREAMS},
         "only-checkpoint": dict({s: 0 for s in STREAMS}, checkpoint=2),
-        "multiples-4-2-1": t(data=4, coordinates=4, velocities=2, forces=1, xyz=4, nonadiabatic=4, print=2, checkpoint=4),
+        "multiples-4-2-1": t(data=4, coordinates=4, velocities=2, forces=1, xyz=4, nonadiabatic=4, print=2, checkpoint=4, tdm=2),
+        # orbital output switched on (mo/homo_lumo_gap rows in the data stream)
+        "write-mo": dict(t(data=2, xyz=0, print=0), write_mo=True),
     }
     for s in STREAMS:   # a zero in every position, everything else pairwise different small values
-        base = dict(data=2, coordinates=3, velocities=1, forces=2, xyz=3, nonadiabatic=2, print=3, checkpoint=2)
+        base = dict(data=2, coordinates=3, velocities=1, forces=2, xyz=3, nonadiabatic=2, print=3, checkpoint=2, tdm=3)
         base[s] = 0
         out["zero-in-" + s] = base
     return out
@@ -182,11 +186,17 @@ def gen_cases(tier, seed):
                     if name == "coprime-2-3-5":
                         continue           # runs first, in the sentinel case of this engine (below)
                     core = ("non-divisors", "larger-than-run", "all-zero", "equal-to-run", "one-larger-two-small")
-                    if setup == "fssh" and name not in core + ("zero-in-nonadiabatic", "zero-in-data"):
+                    if setup == "fssh" and name not in core + ("zero-in-nonadiabatic", "zero-in-data", "zero-in-tdm",
+                                                               "write-mo"):
                         continue
                     if setup in ("langevin", "xl") and name not in core:
                         continue
-                buckets.setdefault((setup, N), []).append({"name": name, "cad": tup, "resume": None})
+                tup = dict(tup)
+                wm = bool(tup.pop("write_mo", False))
+                ent = {"name": name, "cad": tup, "resume": None}
+                if wm:
+                    ent["write_mo"] = True
+                buckets.setdefault((setup, N), []).append(ent)
     # --- thorough: random fill-up over the whole range 0..N+3 (values outside the covering-array lattice)
     if tier == "thorough":
         for setup in setups[:4]:
@@ -250,7 +260,8 @@ def gen_cases(tier, seed):
         _, _, molids = ENGINE_SETUPS[setup]
         tuples = []
         for xyz, c, r, off in combos:
-            cad = dict(data=2, coordinates=3, velocities=1, forces=2, xyz=xyz, nonadiabatic=2, print=2, checkpoint=c)
+            cad = dict(data=2, coordinates=3, velocities=1, forces=2, xyz=xyz, nonadiabatic=2, print=2, checkpoint=c,
+                       tdm=2)
             for mode in (("raise",) if tier == "quick" else ("raise", "exit")):
                 tuples.append({"name": "residue-xyz%d-ck%d-r%d+%d-%s" % (xyz, c, r, off, mode), "cad": cad,
                                "resume": {"after_step": r + off + 1, "mode": mode}})
@@ -270,9 +281,9 @@ def setup_worker():
     import seqm.NonadiabaticDynamics  # noqa: F401
 
 
-def _cfg(case, cad, prefix, molid=None):
+def _cfg(case, cad, prefix, molid=None, write_mo=False):
     from vlib import mdio
-    return mdio.default_cfg(engine=case["engine"], mols=case["mols"], geom_seed=case["geom_seed"],
+    return mdio.default_cfg(write_mo=bool(write_mo), engine=case["engine"], mols=case["mols"], geom_seed=case["geom_seed"],
                             steps=case["N"], seed=case["seed"], molid=list(case["molid"] if molid is None else molid),
                             cad=dict(cad), prefix=prefix, k=3, dt=0.4, scf_eps=1e-8)
 
@@ -309,6 +320,49 @@ def gate_model(cad, N, upto=None, resumed_from=None):
     return out
 
 
+def _gated_rows(c, m, N, upto=None, resumed_from=None):
+    """Row labels of a stream of cadence c that is only written when another cadence m is due as well."""
+    n = N // c + 1
+    arr, i = [0] * n, 0
+    for s in range(0, (N if upto is None else upto) + 1):
+        if s % c == 0 and s % m == 0 and i < n:
+            arr[i] = s
+            i += 1
+    if resumed_from is not None:
+        i = resumed_from // c + 1
+        for s in range(resumed_from + 1, N + 1):
+            if s % c == 0 and s % m == 0 and i < n:
+                arr[i] = s
+                i += 1
+    return arr
+
+
+def classify_tdm(cad, N, problems, resumed_from=None, killed_after=None):
+    """The transition-density stream is written from inside append_data only: with data cadence 0 it does not exist,
+    otherwise its rows appear only at the common multiples of the data and the tdm cadence, stored back to back and
+    followed by unwritten rows.  Returns the mechanism key iff every deviation is in that stream and the observed
+    `steps` array is exactly what this model predicts (values of the written rows still those of their labels)."""
+    c, m = cad.get("tdm", 0), cad.get("data", 0)
+    if c <= 0 or not problems:
+        return None
+    for p in problems:
+        if p.get("stream") != "tdm":
+            return None
+        if m <= 0:
+            if p["what"] != "stream-absent":
+                return None
+            continue
+        if c % m == 0 or p["what"] not in ("steps", "filler-row"):
+            return None
+        if p["what"] == "steps":
+            models = [_gated_rows(c, m, N)] if resumed_from is None else \
+                [_gated_rows(c, m, N, upto=resumed_from, resumed_from=resumed_from),
+                 _gated_rows(c, m, N, upto=(killed_after or resumed_from) - 1, resumed_from=resumed_from)]
+            if p["observed"] not in models:
+                return None
+    return "tdm-stream-gated-by-data-cadence"
+
+
 def classify(cad, N, problems, resumed_from=None, killed_after=None):
     """Mechanism classifier over the witness.  Returns the key of DESIGN section 7 row 11 iff all deviations sit
     in vector streams whose cadence is not a multiple of the smallest vector cadence, each deviating stream's
@@ -316,6 +370,8 @@ def classify(cad, N, problems, resumed_from=None, killed_after=None):
     written row still holds the reference values of the step it is labelled with."""
     if not problems:
         return None
+    if all(p.get("stream") == "tdm" for p in problems):
+        return classify_tdm(cad, N, problems, resumed_from, killed_after)
     pos = [cad[k] for k in VEC if cad[k] > 0]
     if not pos:
         return None
@@ -343,7 +399,10 @@ def check_run(case, tup, cfg, ref, d, tag, mon, margins, resumed_from=None, stdo
     probs = []
     eng_na = case["engine"] in ("fssh", "fssh_damped")
     h5_cad = {"data": cad["data"], "coordinates": cad["coordinates"], "velocities": cad["velocities"],
-              "forces": cad["forces"], "nonadiabatic": cad["nonadiabatic"] if eng_na else 0}
+              "forces": cad["forces"], "nonadiabatic": cad["nonadiabatic"] if eng_na else 0,
+              "tdm": cad.get("tdm", 0) if case["engine"] in EXCITED else 0}
+    # orbital rows are comparable with the reference only when both runs wrote them
+    skip_mo = () if (tup.get("write_mo") and case["engine"] in EXCITED) else ("data/mo/",)
     files = mdio.run_files(cfg)
     nmol = len(case["mols"])
     any_h5 = any(v > 0 for v in h5_cad.values())
@@ -359,7 +418,11 @@ def check_run(case, tup, cfg, ref, d, tag, mon, margins, resumed_from=None, stdo
         want = any_h5 and mol in cfg["molid"]
         mon["absent_streams_checked"] += 0 if want else 1
         if (key in files) != want:
-            probs.append({"kind": "files", "what": "h5-file-" + ("missing" if want else "unexpected"), "mol": mol})
+            only_tdm = want and all(v <= 0 for k, v in h5_cad.items() if k != "tdm")
+            if only_tdm:     # the only stream requested is the transition-density one: report it as that stream absent
+                probs.append({"kind": "h5", "what": "stream-absent", "stream": "tdm", "mol": mol, "cadence": h5_cad["tdm"]})
+            else:
+                probs.append({"kind": "files", "what": "h5-file-" + ("missing" if want else "unexpected"), "mol": mol})
             continue
         if not want:
             continue
@@ -384,8 +447,10 @@ def check_run(case, tup, cfg, ref, d, tag, mon, margins, resumed_from=None, stdo
                 probs.append({"kind": "h5", "what": "stream-absent-in-reference", "stream": s, "mol": mol})
                 continue
             exp = mdio.due_steps(c, N)
-            pr, worst, bitwise, nrows = mdio.compare_stream_to_reference(s, st[s], rst[s], exp, TOL, TOL)
+            pr, worst, bitwise, nrows = mdio.compare_stream_to_reference(s, st[s], rst[s], exp, TOL, TOL,
+                                                                         skip=skip_mo if s == "data" else ())
             mon["h5_streams_checked"] += 1
+            mon["tdm_streams_checked"] += int(s == "tdm")
             mon["h5_rows_compared"] += nrows
             mon["h5_streams_bitwise_equal"] += int(bitwise and not pr)
             if not any(p["what"] == "value" for p in pr):   # a violating ratio is a witness, not a margin
@@ -396,9 +461,16 @@ def check_run(case, tup, cfg, ref, d, tag, mon, margins, resumed_from=None, stdo
         extra = set(st) - set(h5_cad)
         if extra:
             probs.append({"kind": "h5", "what": "unexpected-stream", "streams": sorted(extra), "mol": mol})
-        # static datasets
-        if "atoms" in got["datasets"] and not np.array_equal(got["datasets"]["atoms"], ref["atoms"][mol]):
-            probs.append({"kind": "h5", "what": "atoms-differ", "mol": mol})
+        # static content, judged against the INPUT of the run (not against another run)
+        probs += static_checks(got, cfg, mol, mon)
+        if tup.get("write_mo") and "data" in st:
+            gap = st["data"]["rows"].get("data/mo/homo_lumo_gap")
+            mon["mo_gap_rows_checked"] += 0 if gap is None else int(gap.shape[0])
+            if gap is None or gap.shape[0] != len(st["data"]["steps"]) or not bool(np.all(np.isfinite(gap) & (gap > 0))):
+                probs.append({"kind": "h5", "what": "mo-gap-rows", "stream": "data", "mol": mol,
+                              "shape": None if gap is None else list(gap.shape)})
+        if eng_na:
+            probs += fssh_invariants(got["datasets"], st, mol, mon, margins)
     # ---- XYZ
     for mol in range(nmol):
         key = "%d.xyz" % mol
@@ -412,6 +484,12 @@ def check_run(case, tup, cfg, ref, d, tag, mon, margins, resumed_from=None, stdo
         frames, fp = mdio.read_xyz(cfg["prefix"] + "." + key)
         if fp:
             probs.append({"kind": "xyz", "what": "unparsable", "mol": mol, "problems": fp[:3]})
+        S_in, _, _, _ = mdio.geometry(cfg)
+        want_sym = [gen.SYM[int(z)] for z in S_in[mol] if z > 0]
+        bad_sym = [f["label"] for f in frames if f["sym"] != want_sym]
+        if bad_sym:
+            probs.append({"kind": "xyz", "what": "symbol-column-vs-input-species", "mol": mol, "frames": bad_sym[:5],
+                          "expected": want_sym})
         labels = [f["label"] for f in frames]
         exp = mdio.due_steps(cad["xyz"], N)
         if labels != exp:
@@ -487,6 +565,91 @@ def check_run(case, tup, cfg, ref, d, tag, mon, margins, resumed_from=None, stdo
     return probs
 
 
+def static_checks(got, cfg, mol, mon):
+    """atoms == species of that batch member (real atoms), timestep attribute == configured dt."""
+    from vlib import mdio
+    S, _, _, _ = mdio.geometry(cfg)
+    want = [int(z) for z in S[mol] if z > 0]
+    out = []
+    atoms = got["datasets"].get("atoms")
+    mon["static_metadata_checked"] += 1
+    if atoms is None or [int(z) for z in np.asarray(atoms).reshape(-1)] != want:
+        out.append({"kind": "h5", "what": "atoms-vs-input-species", "mol": mol, "expected": want,
+                    "observed": None if atoms is None else np.asarray(atoms).reshape(-1).tolist()})
+    dt = got["attrs"].get("timestep_fs")
+    if dt is None or mdio.exceeds(abs(float(dt) - float(cfg["dt"])), 1e-12):
+        out.append({"kind": "h5", "what": "timestep-attribute", "mol": mol, "observed": dt, "expected": cfg["dt"]})
+    return out
+
+
+def fssh_invariants(dsets, st, mol, mon, margins):
+    """Relations among the stored surface-hopping outputs of ONE file (no second run involved):
+    NACT antisymmetric with zero diagonal; sum_k |c_k|^2 = 1 within the integrator order (1e-3, the C17 bound);
+    1 <= active_surface <= R; Ep(step) == state_energies[step, active_surface(step)] at the steps both streams hold;
+    the 0-d excitation/active_state equals active_surface at step 0.  All comparisons are NaN-safe."""
+    from vlib import mdio
+    out = []
+
+    def m(name, r):
+        r = float("inf") if r != r else r
+        margins[name] = max(margins.get(name, 0.0), r)
+
+    na = st.get("nonadiabatic")
+    if na is not None:
+        rows = na["rows"]
+        nact = rows.get("data/nonadiabatic/NACT")
+        amp = rows.get("data/nonadiabatic/electronic_amplitudes")
+        act = rows.get("data/nonadiabatic/active_surface")
+        steps = [int(x) for x in na["steps"]]
+        live = [j for j, s in enumerate(steps) if j == 0 or s > max(steps[:j])]
+        for j in live:
+            mon["fssh_invariant_rows_checked"] += 1
+            if nact is not None:
+                a = np.asarray(nact[j], float)
+                r1 = float(np.max(np.abs(a + a.T))) / 1e-12 if np.isfinite(a).all() else float("inf")
+                if mdio.exceeds(r1, 1.0) or (np.diag(a) != 0).any():
+                    out.append({"kind": "fssh", "what": "NACT-not-antisymmetric", "mol": mol, "step": steps[j],
+                                "max|A+At|": float(np.max(np.abs(a + a.T))) if np.isfinite(a).all() else None})
+                else:
+                    m("nact_antisymmetry", r1)
+            if amp is not None:
+                c = np.asarray(amp[j], float)
+                dev = abs(float((c ** 2).sum()) - 1.0)
+                if mdio.exceeds(dev, 1e-3):
+                    out.append({"kind": "fssh", "what": "amplitude-norm", "mol": mol, "step": steps[j], "dev": dev})
+                else:
+                    m("amplitude_norm", dev / 1e-3)
+            if act is not None and nact is not None:
+                R = int(np.asarray(nact[j]).shape[0])
+                if not 1 <= int(act[j]) <= R:
+                    out.append({"kind": "fssh", "what": "active-surface-range", "mol": mol, "step": steps[j],
+                                "active": int(act[j]), "R": R})
+        d = st.get("data")
+        if d is not None and act is not None:
+            se = d["rows"].get("data/excitation/state_energies")
+            ep = d["rows"].get("data/thermo/Ep")
+            dsteps = [int(x) for x in d["steps"]]
+            where = {s: j for j, s in enumerate(steps) if j in live}
+            for i, s in enumerate(dsteps):
+                if se is None or ep is None or s not in where or (i > 0 and s <= max(dsteps[:i])):
+                    continue
+                a = int(act[where[s]])
+                if not 0 <= a < se.shape[1]:
+                    continue
+                mon["fssh_invariant_rows_checked"] += 1
+                dev = abs(float(ep[i]) - float(se[i, a]))
+                if mdio.exceeds(dev, 1e-9 * max(1.0, abs(float(ep[i])))):
+                    out.append({"kind": "fssh", "what": "Ep-vs-active-state-energy", "mol": mol, "step": s, "dev": dev,
+                                "active": a})
+                else:
+                    m("ep_vs_active_state_energy", dev / (1e-9 * max(1.0, abs(float(ep[i])))))
+        a0 = dsets.get("data/excitation/active_state")
+        if a0 is not None and act is not None and steps and steps[0] == 0 and int(a0) != int(act[0]):
+            out.append({"kind": "fssh", "what": "active_state-vs-active_surface[0]", "mol": mol,
+                        "active_state": int(a0), "active_surface0": int(act[0])})
+    return out
+
+
 def _hw_e(x):
     """half-width of the rounding interval of the %e format (6 decimals of the mantissa)"""
     import math
@@ -518,14 +681,15 @@ def run_case(case):
     from vlib import env, mdio
     N = case["N"]
     mon = dict.fromkeys(REQUIRED_MONITORS + ["h5_streams_bitwise_equal", "cursor_rows_logged", "tuples_run",
-                                             "reference_runs", "kills_injected"], 0)
+                                             "reference_runs", "kills_injected", "mo_gap_rows_checked"], 0)
     margins, cells, viol, obs = {}, [], [], {"tuples": {}}
     nontrivial = False
     with env.Scratch("c11") as d:
         # ---- cadence-1 reference, all molecules
         ref_cad = {s: 1 for s in STREAMS}
         ref_cad["checkpoint"] = 0
-        rcfg = _cfg(case, ref_cad, os.path.join(d, "ref"), molid=list(range(len(case["mols"]))))
+        rcfg = _cfg(case, ref_cad, os.path.join(d, "ref"), molid=list(range(len(case["mols"]))),
+                    write_mo=case["engine"] in EXCITED)
         r = mdio.fork_child({"action": "run", "cfg": rcfg, "events": d + "/ref.ev", "stdout": d + "/ref.out",
                              "log_calls": False}, timeout=600)
         ref_tuple = {"name": "all-1-reference", "cad": ref_cad, "resume": None}
@@ -555,7 +719,11 @@ def run_case(case):
                 continue
             ref["h5"][mol] = mdio.h5_streams(got["datasets"])
             ref["atoms"][mol] = got["datasets"]["atoms"]
-            need = ("data", "coordinates", "velocities", "forces") + (("nonadiabatic",) if case["engine"] == "fssh" else ())
+            bad_ref += static_checks(got, rcfg, mol, mon)
+            if case["engine"] in ("fssh", "fssh_damped"):
+                bad_ref += fssh_invariants(got["datasets"], ref["h5"][mol], mol, mon, margins)
+            need = ("data", "coordinates", "velocities", "forces") + (("nonadiabatic",) if case["engine"] == "fssh" else ()) \
+                + (("tdm",) if case["engine"] in EXCITED else ())
             for s in need:
                 obs_steps = [int(x) for x in ref["h5"][mol][s]["steps"]] if s in ref["h5"][mol] else None
                 if obs_steps != list(range(N + 1)):
@@ -563,14 +731,14 @@ def run_case(case):
                                     "expected": list(range(N + 1))})
         if bad_ref:
             return {"nontrivial": True, "monitors": mon, "violations": [{
-                "clause": "h5-stream-steps", "mech": None,
+                "clause": "%s-stream-%s" % (bad_ref[0]["kind"], bad_ref[0]["what"]), "mech": None,
                 "detail": {"tuple": "all-1-reference", "cadences": ref_cad, "engine": case["engine"],
                            "mols": case["mols"], "N": N, "problems": bad_ref[:8]}}]}
         # ---- the tuples
         for ti, tup in enumerate(case["tuples"]):
             tag = "t%02d" % ti
             cad = tup["cad"]
-            cfg = _cfg(case, cad, os.path.join(d, tag))
+            cfg = _cfg(case, cad, os.path.join(d, tag), write_mo=tup.get("write_mo", False))
             evp, outp = os.path.join(d, tag + ".ev"), os.path.join(d, tag + ".out")
             resumed_from = None
             job = {"action": "run", "cfg": cfg, "events": evp, "stdout": outp}
@@ -605,7 +773,17 @@ def run_case(case):
                 return {"inconclusive": "watchdog inside case: tuple %s" % tup["name"], "monitors": mon}
             if r["code"] != 0:
                 err = [e for e in events if e.get("ev") == "error"]
-                viol.append({"clause": "run-raised" if resumed_from is None else "resume-raised", "mech": None,
+                etxt = (err[0]["type"] + ": " + err[0]["msg"]) if err else ""
+                # orbital output requested on an engine without excited states: the mo datasets are never created
+                wm = (tup.get("write_mo") and case["engine"] not in EXCITED and cad["data"] > 0
+                      and etxt.startswith("KeyError") and "append_data" in (err[0]["tb"] if err else ""))
+                viol.append({"clause": "run-raised" if resumed_from is None else "resume-raised",
+                             # (a resume of a run whose tdm stream was never created because the data stream is off)
+                             "mech": "write-mo-keyerror-without-excited-states" if wm else (
+                                 "tdm-stream-gated-by-data-cadence"
+                                 if (resumed_from is not None and cad.get("data", 0) == 0 and cad.get("tdm", 0) > 0
+                                     and case["engine"] in EXCITED
+                                     and "transition_density_matrices not present" in etxt) else None),
                              "detail": {"tuple": tup, "engine": case["engine"], "N": N, "exit": r["code"],
                                         "error": (err[0]["type"] + ": " + err[0]["msg"]) if err else None,
                                         "tb": err[0]["tb"][-800:] if err else None}})
@@ -614,7 +792,8 @@ def run_case(case):
                               stdout_path=outp, events=events)
             if resumed_from is not None:
                 mon["resumed_runs_checked"] += 1
-            pos = sorted({v for k, v in cad.items() if v > 0 and (k != "nonadiabatic" or case["engine"] == "fssh")})
+            pos = sorted({v for k, v in cad.items() if v > 0 and (k != "nonadiabatic" or case["engine"] == "fssh")
+                          and (k != "tdm" or case["engine"] in EXCITED)})
             if len(pos) >= 2:
                 nontrivial = True
             cells.append("%s/N%d/%s/%s" % (case["setup"], N, "resumed" if resumed_from is not None else "fresh",
@@ -656,6 +835,8 @@ def summarize(cases, results, report):
                 continue
             for (i, a), (j, b) in itertools.combinations(list(enumerate(STREAMS)), 2):
                 if "nonadiabatic" in (a, b) and c["engine"] != "fssh":
+                    continue
+                if "tdm" in (a, b) and c["engine"] not in EXCITED:
                     continue
                 va, vb = lab.get(t["cad"][a]), lab.get(t["cad"][b])
                 if va is not None and vb is not None:
